@@ -3,6 +3,15 @@ import CoreBGP.Props.DecTie
 namespace CoreBGP.Props.DecTieC12
 open CoreBGP CoreBGP.Model CoreBGP.Gen CoreBGP.Lemmas.DecTie CoreBGP.Props.DecTie
 
+/-! the generated table, evaluated (a changed decision of these functions is reported here) -/
+private theorem d_he0 : decision "peer.handleError" "if" 0 = .atom "errors.As(err,&nerr)" := by decide
+private theorem d_damp : decision "notificationError.dampPeer" "return" 0 =
+    .cmp "!=" "n.notification.Code" "NOTIF_CODE_CEASE" := by decide
+private theorem d_sd0 : decision "peer.updateStartupDelay" "if" 0 =
+    .and (.cmp "!=" "p.lastProtoError" "nil") (.cmp ">=" "time.Since(*p.lastProtoError)" "errorAmnesiaTime") := by
+  decide
+private theorem d_sd1 : decision "peer.updateStartupDelay" "if" 1 = .cmp ">" "p.startupDelay" "0" := by decide
+
 /-! ## C12: which errors damp, and the back-off arithmetic's conditions -/
 
 /-- `handleError`: `if errors.As(err, &nerr) { if nerr.dampPeer() {…} }` with `dampPeer` = `Code != NOTIF_CODE_CEASE` -/
